@@ -30,6 +30,7 @@ func (f wnFinding) Key() string {
 }
 
 type WireNil struct {
+	Decoders     int
 	sn           *stateNil
 	p            *Prog
 	root         *ssa.Function
@@ -497,6 +498,15 @@ func RunWireNil(p *Prog, root *ssa.Function, cmdFunctionNonNil bool) *WireNil {
 		}
 	}
 	walk(root)
+	// custom decoders are called reflectively by json.Unmarshal on the inbound bytes
+	var decoders []*ssa.Function
+	for _, f := range p.RepoFns("model", "spine") {
+		if f.Signature.Recv() != nil && (f.Name() == "UnmarshalJSON" || f.Name() == "UnmarshalText") {
+			decoders = append(decoders, f)
+			walk(f)
+		}
+	}
+	w.Decoders = len(decoders)
 	var fns []*ssa.Function
 	for f := range w.reach {
 		fns = append(fns, f)
@@ -514,6 +524,22 @@ func RunWireNil(p *Prog, root *ssa.Function, cmdFunctionNonNil bool) *WireNil {
 				w.mark(a)
 			}
 		}
+	}
+	// ... and whatever a custom decoder lets encoding/json fill
+	for _, f := range decoders {
+		forEachCall(f, func(site ssa.CallInstruction) {
+			callee := site.Common().StaticCallee()
+			if callee == nil || fnPkgPath(callee) != "encoding/json" || callee.Name() != "Unmarshal" || len(site.Common().Args) < 2 {
+				return
+			}
+			v := site.Common().Args[1]
+			if mi, ok := v.(*ssa.MakeInterface); ok {
+				v = mi.X
+			}
+			if a, ok := v.(*ssa.Alloc); ok {
+				w.mark(a)
+			}
+		})
 	}
 	for iter := 0; iter < 60; iter++ {
 		w.changed = false
